@@ -79,7 +79,7 @@ func (c *ctx) rangeSmallSection(r *lib.RNG, out chan<- batch, rcfg string) {
 		}
 		bt, err := buildTrie(&spec)
 		if err != nil {
-			res.Note("range-small: build: %v", err)
+			res.Fatalf("range-small: build: %v", err)
 			return
 		}
 		rootHex := fhex(&bt.root)
@@ -89,7 +89,7 @@ func (c *ctx) rangeSmallSection(r *lib.RNG, out chan<- batch, rcfg string) {
 		rp := func(l, rk string) Proof {
 			p, err := bt.rangeProof(l, rk)
 			if err != nil {
-				res.Note("range-small: GetRangeProof: %v", err)
+				res.Fatalf("range-small: GetRangeProof: %v", err)
 			}
 			return p
 		}
